@@ -167,14 +167,52 @@ def int_loop_contract_job(cap=1024):
                bounded_note='loop closed by a loop contract (invariant + variant); input: every NUL-terminated byte string that fits a buffer of %d bytes' % cap,
                proves='isIntString(s) <=> s in -?[0-9]+, for a string of any length within the buffer; no read outside the buffer')
 
+# isRealString under a loop contract: the harness runs the literal grammar's own automaton (numeral | decimal | fraction, states 0..5 as below, 9 = dead) over the buffer and records
+# the state before every position; the invariant says that the function's state is that state as long as the grammar is alive, and that a foreign character stops the scan.
+H_REAL_LC = '''int nondet_int(void);
+void harness(void) {
+  h_len = nondet_int(); __CPROVER_assume(h_len >= 0 && h_len <= OSMT_CAP);
+  g_w = -1; h_first = 0;
+  t_int st = 0;
+  for (int k = 0; k < OSMT_CAP; k++) {
+    h_s[k] = nondet_char();
+    if (k < h_len) __CPROVER_assume(h_s[k] != 0);
+    if (k == 0 && h_len > 0 && h_s[0] == '-') h_first = 1;
+    h_st[k] = (t_char)st;
+    if (k >= h_first && k < h_len) {
+      char c = h_s[k];
+      if (g_w < 0 && !(is_dig(c) || c == '.' || c == '/')) g_w = k;       /* first character that cannot occur in a literal */
+      /* numeral D+ (1) | decimal D+ . D+ (1 2 3) | fraction D+ / D+ (1 4 5) */
+      if (st == 0) st = is_dig(c) ? 1 : 9;
+      else if (st == 1) st = is_dig(c) ? 1 : c == '.' ? 2 : c == '/' ? 4 : 9;
+      else if (st == 2 || st == 3) st = is_dig(c) ? 3 : 9;
+      else if (st == 4 || st == 5) st = is_dig(c) ? 5 : 9;
+    }
+  }
+  h_st[OSMT_CAP] = (t_char)st;   /* (only reached when h_len == OSMT_CAP) */
+  h_s[h_len] = 0;
+  t_int fin = h_st[h_len];
+  t_bool r = isRealString(h_s);
+  __CPROVER_assert(!(h_len > h_first && (fin == 1 || fin == 3 || fin == 5)) || r, "isRealString accepts every numeral, decimal and fraction literal (loop closed by its invariant)");
+  __CPROVER_assert(!(g_w >= 0 || h_len == h_first) || !r, "isRealString rejects strings with characters outside [0-9./] and the empty literal (loop closed by its invariant)");
+  OSMT_REACH("return");
+}
+'''
+def real_loop_contract_job(cap=1024):
+    return Job('isRealString.loopcontract.cap%d' % cap, TU, 'opensmt::isRealString', tier='R', header='contracts/C16/strconv.h', harness=H_REAL_LC, enforce=False, loop_contracts=True, pre_includes=(),
+               stubs=('opensmt::normalize',), defines=('OSMT_N 4', 'OSMT_CAP %d' % cap, 'C16_REAL_LC'), unwindset=('harness.0:%d' % (cap + 2),), min_obligations=3, timeout=1200, weight=15,
+               bounded_note='loop closed by a loop contract (invariant + variant); input: every NUL-terminated byte string that fits a buffer of %d bytes' % cap,
+               proves='isRealString accepts every literal of the grammar and rejects foreign characters, for a string of any length within the buffer')
+
 def jobs(tier, N=None):
+    if os.environ.get('C16_TRY_REAL'): return [real_loop_contract_job(int(os.environ['C16_TRY_REAL']))]
     if os.environ.get('C16_TRY_SAFE'):
         nm, n = os.environ['C16_TRY_SAFE'].split(','); return [small_alphabet_safety_job(nm, int(n))]
     if os.environ.get('C16_TRY_ALPHA'):
         nm, n = os.environ['C16_TRY_ALPHA'].split(','); return [small_alphabet_job(nm, int(n))]
     N = N or (4 if tier == 'quick' else 5)
     NC = 16 if tier == 'quick' else 32      # the classifiers have no arithmetic: all byte strings of 16 / 32 bytes take seconds (the reference reader accumulates in 128 bits: 64 digits would wrap)
-    return [int_loop_contract_job(1024), job('isIntString', 'opensmt::isIntString', H_INT, NC), job('isRealString', 'opensmt::isRealString', H_REAL, NC),
+    return [int_loop_contract_job(1024), real_loop_contract_job(256), job('isIntString', 'opensmt::isIntString', H_INT, NC), job('isRealString', 'opensmt::isRealString', H_REAL, NC),
             job('stringToRational', 'opensmt::stringToRational', H_CONV, N, weight=20),
             # (longer literals were tried and are NOT registered: all strings of 6 bytes exhaust MiniSat's and cadical's memory; one fixed shape d.ddddd of 7 bytes, with a static conversion
             #  buffer and shift-add value arithmetic, still does not finish in 30 min)
